@@ -1257,8 +1257,14 @@ fn freeze_strategy(_t: Tier) -> BoxedStrategy<Scenario> {
         1 => gen::churn_scenario_with(probe_opts(), 8, gen::wait_no_notify(), FutMode::Never),
         // add_stream on a parent shared by 2-3 handles whose siblings receive meanwhile: the state
         // in which a freshly published stream is briefly behind the writers
-        2 => gen::addstream_plan().prop_map(|mut pl| {
+        // (in half of these the adder is first held for a while inside add_stream by a StallCall
+        // schedule, so that the siblings and the producers move on before the new stream is
+        // published; the sweep then suspends it for good at every later point)
+        2 => (gen::addstream_plan(), gen::stall_call_schedule(300, &[14]), any::<bool>()).prop_map(|(mut pl, stall, use_stall)| {
             use crate::handles::WaitKind;
+            if use_stall {
+                pl.sched = stall;
+            }
             pl.parent_handles = 2 + pl.parent_handles % 2;
             pl.q.futures = false;
             pl.q.wait = match pl.q.wait {
